@@ -247,7 +247,7 @@ def run(ctx):
     ctx.set_cover(action_coverage={a: v for a, v in cov.coverage.items() if v[1] > 0 and a != "DepthBound"})
     # behaviours for replay
     histlen = 18 if quick else 22
-    want = 2500 if quick else 40000
+    want = 2500 if quick else 12000
     hists = []
     for happy in (False, True):
         simcfg = cfg_for("SimSpec", False, "  HistLen = %d\nINVARIANTS EmitHist %s\nCONSTRAINT StopAtLen\n" % (histlen, " ".join(PROPS_INV)),
@@ -260,13 +260,10 @@ def run(ctx):
     if not hists:
         ctx.machinery("no behaviours emitted")
     items = list(enumerate(hists))
-    pool = multiprocessing.get_context("fork").Pool(ctx.ncpu)
-    try:
-        parts = [(ctx.seed, items[k::ctx.ncpu * 2]) for k in range(ctx.ncpu * 2)]
-        results = [x for part in pool.map(_worker, [p for p in parts if p[1]]) for x in part]
-    finally:
-        pool.close()
-        pool.join()
+    from harness.common import pool_map
+    nparts = max(ctx.ncpu * 2, len(items) // 400)
+    parts = [(ctx.seed, items[k::nparts]) for k in range(nparts)]
+    results = [x for part in pool_map(ctx, _worker, [p for p in parts if p[1]]) for x in part]
     agreed = steps = 0
     headers = set()
     states_seen = {"finished": 0, "failed": 0, "progress": 0}
